@@ -340,6 +340,29 @@ def r7(ctx):
         why = (f'an inward pair is rejected under conditions that are not mirror images of each other: reverse R1 (mirrored) {sorted(map(sorted, rejected[True]))}, forward R1 {sorted(map(sorted, rejected[False]))}: '
                'one orientation of a fragment is rejected where its mirror image is accepted')
     ctx.emit('C09-R7', ok, FRAG_CHIC, top, 'scCHIC orientation test: ' + why, key='scCHIC:orientation-symmetric', what='scCHIC: paired-end acceptance differs between the two strands')
+    # a mate that did not map has no orientation: its strand flag is whatever the aligner left there.  Whether a fragment with an unmapped second mate is
+    # refused for its orientation must not depend on the strand of read 1 nor on that flag (else one strand loses the sites its mirror image keeps)
+    verdicts = {}
+    for rev in (True, False):
+        for flag in (True, False):
+            facts = {'R1.is_reverse': rev, 'R2.is_reverse': flag, 'self.get_R2().is_reverse': flag, 'self.has_R2()': True, 'R2.is_unmapped': True, 'self.get_R2().is_unmapped': True,
+                     'R1.is_unmapped': False, 'R1 is None': False, 'self.R2_primer_length': 0, 'R1.is_reverse == R2.is_reverse': rev == flag, 'R1.is_reverse != R2.is_reverse': rev != flag,
+                     'R2.is_reverse == R1.is_reverse': rev == flag, 'R2.is_reverse != R1.is_reverse': rev != flag}
+            atoms = dict(facts)
+            for k_, v_ in list(facts.items()):
+                atoms[f'not {k_}'] = not v_
+            se = SymExec(atoms, SYMBOLS, record=('set_rejection_reason',))
+            hit = False
+            for st in se.run(f.body):
+                if any(name == 'set_rejection_reason' and 'orientation' in str(args) for name, args, guards, line in st.events):
+                    # only count it when no undecided coordinate guard stands before it
+                    hit = True
+            verdicts[(rev, flag)] = hit
+    same = len(set(verdicts.values())) == 1
+    ctx.emit('C09-R7', same, FRAG_CHIC, top, 'scCHIC, second mate unmapped: ' + ('the orientation test ' + ('never' if not any(verdicts.values()) else 'always') + ' refuses the fragment, whatever strand read 1 is on'
+             if same else f'the orientation test refuses the fragment for (read 1 reverse, strand flag of the unmapped mate) in {sorted(k for k, v in verdicts.items() if v)} but not in '
+             f'{sorted(k for k, v in verdicts.items() if not v)}: with the usual flag (forward) only forward fragments lose their site'), key='scCHIC:unmapped-mate-symmetric',
+             what='scCHIC: a fragment with an unmapped mate is refused on one strand only')
 
 
 @rule('C09', 'C09-R8', 'a cut site at coordinate 0 is a site: where the result of identify_site() decides by its truth value whether the fragment is valid, every '
@@ -472,6 +495,51 @@ def r10(ctx):
                 undec = True
     ctx.emit('C09-R10', ok, rel, f, f'molecule site update: {detail} (required: forward -> min, reverse -> max of the fragment and molecule site)', key='molecule-site-mirror',
              undecided=undec and not ok, witness=detail if not ok else None, what='CHICMolecule._add_fragment: molecule site update is not mirror symmetric')
+    # the site the deduplicated reads share (DS rewritten by the molecule when a radius is in use) is that anchor, not the site of whichever fragment came first
+    w = ctx.fn(rel, 'CHICMolecule.write_tags')
+    cls = ctx.ix.cls(rel, 'CHICMolecule')
+    own = {m.name: m for m in cls.body if isinstance(m, ast.FunctionDef)}
+    stores = [c for c in walk_no_nested(w) if isinstance(c, ast.Call) and isinstance(c.func, ast.Attribute) and c.func.attr == 'set_meta' and c.args and isinstance(c.args[0], ast.Constant)
+              and c.args[0].value == 'DS' and len(c.args) > 1]
+    ctx.need('C09-R10', len(stores), 1, 'DS stores of CHICMolecule.write_tags')
+
+    def anchor_getter():
+        g = own.get('get_cut_site')
+        if g is None:
+            return None
+        rets = [r_ for r_ in walk_no_nested(g) if isinstance(r_, ast.Return) and r_.value is not None]
+        if len(rets) == 1 and isinstance(rets[0].value, ast.Tuple):
+            el = [src(e_) for e_ in rets[0].value.elts]
+            if el[:1] == ['*self.site_location'] or el[:2] == ['self.site_location[0]', 'self.site_location[1]']:
+                return True
+        return False
+    for c in stores:
+        v = c.args[1]
+        text = src(v).replace(' ', '')
+        origin = None
+        if isinstance(v, ast.Name):
+            for a_ in walk_no_nested(w):
+                if isinstance(a_, ast.Assign) and len(a_.targets) == 1:
+                    t_ = a_.targets[0]
+                    if isinstance(t_, ast.Name) and t_.id == v.id:
+                        origin = src(a_.value).replace(' ', '')
+                    elif isinstance(t_, ast.Tuple) and len(t_.elts) == 3 and isinstance(t_.elts[1], ast.Name) and t_.elts[1].id == v.id:
+                        origin = src(a_.value).replace(' ', '') + '[1]'
+        text = origin or text
+        if text == 'self.site_location[1]':
+            ctx.emit('C09-R10', True, rel, c, 'the DS tag shared by the reads of a molecule is the molecule anchor self.site_location[1]', key='molecule-DS-is-anchor')
+        elif text == 'self.get_cut_site()[1]':
+            ag = anchor_getter()
+            if ag is None:
+                ctx.emit('C09-R10', False, rel, c, 'CHICMolecule.write_tags takes DS from self.get_cut_site(), and CHICMolecule has no get_cut_site of its own: the base method returns the site of the '
+                         'FIRST fragment, not the outer-most one the molecule is anchored on - the shared DS depends on arrival order and differs between a cut and its mirror image',
+                         key='molecule-DS-is-anchor', what='CHICMolecule.write_tags: the shared DS tag is the site of the first fragment, not the molecule anchor')
+            elif ag:
+                ctx.emit('C09-R10', True, rel, c, 'the DS tag shared by the reads is taken from CHICMolecule.get_cut_site(), which returns the anchor self.site_location', key='molecule-DS-is-anchor')
+            else:
+                ctx.emit('C09-R10', False, rel, c, 'CHICMolecule.get_cut_site is not recognised as returning the anchor', key='molecule-DS-is-anchor', undecided=True)
+        else:
+            ctx.emit('C09-R10', False, rel, c, f'the DS value `{text[:80]}` written by CHICMolecule.write_tags is not recognised as the molecule anchor', key='molecule-DS-is-anchor', undecided=True)
 
 
 META = {
